@@ -2,6 +2,7 @@ package props
 
 import (
 	"fmt"
+	"math"
 	"reflect"
 	"regexp"
 	"sort"
@@ -586,6 +587,50 @@ func c11Families(tier string) []explore.Family {
 		r.Class("else/" + e.name)
 		if o.Panic != nil || o.Err != nil || o.Out != "ELSE" {
 			r.Violation("wrong:else:"+e.name, map[string]any{"template": src, "collection": e.name}, "ELSE", o.String())
+		}
+	}})
+
+	// --- offset and limit far beyond the length ("no limit" spelled as the largest integer, offsets of the same
+	// size): skip o then take n must not overflow
+	hugeMods := []int{-99, 0, 1, 2, math.MaxInt64, math.MaxInt64 - 1, 1 << 62, 1 << 31, math.MaxInt32}
+	fams = append(fams, explore.Family{Name: "huge-offset-and-limit", Count: int64(len(hugeMods) * len(hugeMods) * 2 * 2 * 4 * 2), Run: func(i int64, r *explore.Rec) {
+		rx := radix{i}
+		sp, n, rev, tag := []string{"literal", "variable"}[rx.next(2)], []int{0, 1, 3, 5}[rx.next(4)], rx.next(2) == 1, []string{"for", "tablerow"}[rx.next(2)]
+		lim, off := hugeMods[rx.next(len(hugeMods))], hugeMods[rx.next(len(hugeMods))]
+		var offp, limp *int
+		if off != -99 {
+			offp = &off
+		}
+		if lim != -99 {
+			limp = &lim
+		}
+		coll, bind := c11Collection("[]any", n)
+		ms, mb := modStr(rev, offp, limp, sp)
+		for k, v := range mb {
+			bind[k] = v
+		}
+		src := "{% for x in " + coll + " " + ms + " %}" + c11Trace + "{% else %}ELSE{% endfor %}"
+		if tag == "tablerow" {
+			src = "{% tablerow x in " + coll + " " + ms + " cols: 2 %}" + c11Trace + "{% endtablerow %}"
+		}
+		r.Eval()
+		r.Transition()
+		r.Trace()
+		o := Render(c11.eng, src, bind)
+		sel, _ := c11Select(items(n), rev, offp, limp)
+		var sb strings.Builder
+		for k, it := range sel {
+			sb.WriteString(c11RefTrace(it, k+1, len(sel)))
+		}
+		want, got := sb.String(), o.Out
+		if tag == "tablerow" {
+			got = strings.ReplaceAll(c12TableTags.ReplaceAllString(got, ""), "\n", "")
+		} else if len(sel) == 0 {
+			want = "ELSE"
+		}
+		r.Class("huge-modifiers/" + tag)
+		if o.Panic != nil || o.Err != nil || got != want {
+			r.Violation("wrong:"+tag+":huge-offset-or-limit", map[string]any{"template": src, "n": n, "bindings": fmt.Sprint(mb)}, want, o.String())
 		}
 	}})
 
